@@ -15,7 +15,7 @@ import (
 // C08 — validation results are written back: 304 freshens, 200 replaces.
 func init() { register(&Check{ID: "C08", Run: runC08, ShardDepth: 3}) }
 
-var c08Answers = []string{"304", "304+X-New", "304+max-age=20", "304+CL+hop", "304+CL+hop-lowercase", "304+CL+hop-two-lines", "304+two-vary-lines", "304-slow", "304-no-date", "304+two-cc-lines", "200-same-vary", "200-other-vary", "200-no-store", "500", "410-max-age=30", "404-max-age=30"}
+var c08Answers = []string{"304", "304+X-New", "304+max-age=20", "304+CL+hop", "304+CL+hop-lowercase", "304+CL+hop-two-lines", "304+two-vary-lines", "304-slow", "304-no-date", "304+two-cc-lines", "200-same-vary", "200-other-vary", "200-no-store", "500", "410-max-age=30", "404-max-age=30", "200-same-etag"}
 
 func runC08(x *mc.X) {
 	kind := mc.Pick(x, "stored.kind", []string{"max-age=10", "heuristic", "max-age=5,swr=100"})
@@ -158,6 +158,17 @@ func runC08(x *mc.X) {
 					st = 404
 				}
 				resp := o.Respond(c, RS{Status: st, H: H("Vary", "X-A", "Cache-Control", "max-age=30", "ETag", `"v2"`)})
+				newTok = resp.Header.Get("X-Tok")
+				return resp, nil
+			case ans == "200-same-etag": // a full reply repeating the stored validators: it replaces the stored response like any other
+				hh := H("Vary", "X-A", "Cache-Control", "max-age=30")
+				if validators == "etag" || validators == "both" {
+					hh = append(hh, [2]string{"ETag", `"v1"`})
+				}
+				if validators == "lm" || validators == "both" || kind == "heuristic" {
+					hh = append(hh, [2]string{"Last-Modified", lm})
+				}
+				resp := o.Respond(c, RS{Status: 200, H: hh})
 				newTok = resp.Header.Get("X-Tok")
 				return resp, nil
 			case ans == "200-no-store":
